@@ -389,6 +389,7 @@ def m3(ctx):
     outer = ctx.func('recipes.memoize_stampede.<locals>.decorator')
     ok, why = True, ''
     ncalls = 0
+    nthreads = 0
 
     def all_nested(fn):
         for g in fn.nested.values():
@@ -405,7 +406,7 @@ def m3(ctx):
             continue        # a helper called by another closure: judged inlined into its callers
         for p in ctx.paths(g, 'plain'):
             for e in p.trace:
-                if _is_user_call(e):
+                if _is_user_call(e) and not e.d.get('inlined'):
                     ncalls += 1
                     if not _passes_all_args(e):
                         ok, why = False, '%s calls the function without (*args, **kwargs)' % g.qual
@@ -413,6 +414,31 @@ def m3(ctx):
                     tgt = e.d['kwargs'].get('target')
                     if tgt is not None and tgt.k == 'func':
                         tf = ctx.prog.funcs.get(tgt.a[0])
+                        # the refresh thread stores what it computed under the key that was looked up, and is started
+                        if tf is not None:
+                            nthreads += 1
+                            stores = False
+                            for tp in ctx.paths(tf, 'plain'):
+                                if tp.kind not in ('return', 'next'):
+                                    continue
+                                # the computation: a call that receives the caller's (*args, **kwargs)
+                                ucs = [x for x in tp.trace if x.kind in ('UCALL', 'CALL') and 'args' in x.d
+                                       and _passes_all_args(x)]
+                                sts = [x for x in tp.trace if x.kind == 'CALL' and x.d['name'] == 'set'
+                                       and not x.d.get('inlined')]
+                                for st_ in sts:
+                                    a_ = st_.d['args']
+                                    useqs = {u.seq for u in ucs}
+                                    if len(a_) >= 2 and a_[0].k in ('free', 'param') and ucs and any(
+                                            y.k in ('ret', 'ucall') and y.a[0] in useqs for y in values_in(a_[1])):
+                                        stores = True
+                            if not stores:
+                                ok, why = False, 'the early-recomputation thread does not store its result under the ' \
+                                                 'key: the refresh is computed and thrown away, so every caller ' \
+                                                 'recomputes at expiry (the stampede the recipe exists to prevent)'
+                            started = any(x.kind == 'MCALL' and x.d['name'] == 'start' for x in p.trace[e.seq:])
+                            if not started:
+                                ok, why = False, 'the early-recomputation thread is created but never started'
                         if tf is not None and (tf.posparams or tf.vararg or tf.kwarg or tf.kwonly):
                             a, k = e.d['kwargs'].get('args'), e.d['kwargs'].get('kwargs')
                             good_a = a is not None and any(x.k == 'param' and x.a[0] == '*args' for x in values_in(a))
@@ -423,7 +449,7 @@ def m3(ctx):
                                 ok, why = False, 'the refresh thread is started without the keyword arguments of ' \
                                                  'the call: it recomputes func(*args) and stores the result under ' \
                                                  'the key of func(*args, **kwargs)'
-    obs.append(Ob('M3', 'stampede/helpers-call-through', ok and ncalls >= 2, why or 'helper closures not found',
+    obs.append(Ob('M3', 'stampede/helpers-call-through', ok and ncalls >= 1, why or 'helper closures not found',
                   outer.loc()))
     return obs
 
